@@ -331,6 +331,10 @@ fn clone_cell(rep: &Report, idx: usize, cell: &Cell, seed: u64) -> Option<String
             seed_output: cell.seed_output,
             verify_header: verify,
             seeds: seed_args,
+            // options that only add a check must not change whether an existing output is
+            // respected: every other repetition of a cell also asks for --verify-output
+            // (not on block devices larger than the source, where it cannot pass, DESIGN §2)
+            verify_output: (idx / 448) % 2 == 1 && !matches!(cell.out, OutState::BlockDev(_)),
             ..Default::default()
         };
         let mut run = Run::new(&dir, "clone", scn::clone_args(&spec));
